@@ -108,6 +108,8 @@ def gen_ops(rng, cfg, n, focus=None):
             nonlocal scan_i
             if allow_special and cfg['special'] and rng.random() < 0.08:
                 return rng.choice(cfg['special'])
+            if allow_special and 'typed' in cfg['keymap'] and cfg.get('stub') != 'var' and rng.random() < focus.get('p_twin', 0.1):
+                return ('t', rng.randrange(6))
             if allow_special and rng.random() < 0.12:
                 r2 = rng.random()
                 if r2 < 0.45:
